@@ -752,7 +752,9 @@ def part_macro(ctx, cfg):
         tdir, out = build_macro_project(cases, negs)
         posbin = os.path.join(tdir, 'debug', 'pos')
         if not os.path.exists(posbin):
-            errs = [l for l in out.splitlines() if l.startswith('error')][:5]
+            blocks = re.split(r'\n(?=error)', out)
+            errs = [b.split('\n')[0] + ' @' + (re.search(r'src/bin/pos\.rs:\d+', b).group(0)) for b in blocks if 'src/bin/pos.rs' in b][:5] or \
+                   [l for l in out.splitlines() if l.startswith('error') and 'neg' not in l][:5]
             ctx.violations.append(viol('macro-program-does-not-compile', 'generated json! program', 'the generated json!(...) invocations compile (they are valid per the model)',
                                        '; '.join(errs)[:600]))
             log(out[-3000:])
